@@ -1,6 +1,6 @@
 (** Property C07 — each execution is isolated from every other execution. *)
 From Coq Require Import String List Arith Bool.
-From Zog Require Import Model.Val Model.Engine Spec.Sem Proofs.Refine Model.Objects Proofs.ObjectsP.
+From Zog Require Import Model.Val Model.Engine Spec.Sem Proofs.Refine Model.Objects Proofs.ObjectsP Model.Options Proofs.OptionsP.
 Import ListNotations.
 
 (** Whatever objects the pools are recycling — for all contents of every field of the object handed
@@ -60,3 +60,14 @@ Theorem C07_legacy_collect_map_refuted :
   live (hrun ops) = [0; 0].
 Proof. exact legacy_collect_map_refuted. Qed.
 Print Assumptions C07_legacy_collect_map_refuted.
+
+(** the execution options of a call decide its context values and its formatter, whatever the
+    recycled execution context held; a context map kept from the previous call is visible (witness) *)
+Theorem C07_ctx_values_ignore_recycled_context : forall d1 d2 opts k, ctx_value d1 opts k = ctx_value d2 opts k.
+Proof. exact ctx_value_ignores_recycled. Qed.
+Print Assumptions C07_ctx_values_ignore_recycled_context.
+Theorem C07_legacy_ctx_refuted :
+  mget (e_vals (call_ctx_legacy {| e_fmt := None; e_vals := [("tenant", "A")] |} [])) "tenant" = Some "A"
+  /\ ctx_value {| e_fmt := None; e_vals := [("tenant", "A")] |} [] "tenant" = None.
+Proof. exact legacy_ctx_refuted. Qed.
+Print Assumptions C07_legacy_ctx_refuted.
